@@ -9,6 +9,7 @@ import copy
 import json
 
 import common
+import crowd
 import pipeline
 import scen
 
@@ -270,6 +271,8 @@ def main(ctx):
     n = 150 if not ctx.thorough else 2500
     for p in common.pmap(shard, [(ctx.bin, ctx.seed, s, n) for s in range(common.NPROC)]):
         res.merge(p)
+    for p in common.pmap(crowd.owners, [(ctx.bin, ctx.seed, PROP, s, 7 if not ctx.thorough else 42) for s in range(4 if not ctx.thorough else common.NPROC)]):
+        res.merge(p)
     return common.finish(
         PROP, ctx.tier, ctx.seed, res, t0=ctx.t0,
         rule="otherwise-valid scenarios (1-3 steps, valid links present) x owner-signer subsets of 6 keys of all types "
@@ -278,7 +281,7 @@ def main(ctx):
              "leaves/containers of the signed layout; signature flip/truncate/empty/zero/relabel/other-content/drop/swap/"
              "dup}; non-trivial = at least one signer or one supplied key; distinct by SHA-256 of (wire layout, key map)",
         assumptions=["signature validity ground truth is by construction", "value equality for 'semantics-preserving' is the library's PartialEq"],
-        required=["positive_control_accepted", "positive:ed", "positive:ec", "positive:rsa", "map:empty", "map:two_ids",
+        required=["crowd:owners:missing", "crowd:owners:flipped", "crowd:owners:foreign", "crowd:owners:all", "crowd:size:48", "crowd:size:33", "crowd:accepted", "positive_control_accepted", "positive:ed", "positive:ec", "positive:rsa", "map:empty", "map:two_ids",
                   "map:superset", "map:disjoint", "map:subset", "map:plus_unknown_scheme_key", "action:content:set", "action:sig:flip", "action:sig:relabel",
                   "action:sig:other_content", "action:sig:drop", "action:sig:resign_by_other", "expect:reject", "observed:reject", "history:genuine_layout_verified_first:True",
                   "summary_name_given:accept", "summary_name_given:reject", "in_memory_edit:rekey_swap:effective", "in_memory_edit:readme:effective"],
